@@ -94,7 +94,9 @@ Proof.
            (pass_sub_sp r rl fr Hn HF Hfr) (next_sub_sp r rl fr Hn HF Hfr) (init_sub_sp r rl fr Hn HF Hfr)).
   - destruct (init_state_den_sub_sp r rl fr Hn HF Hfr) as (s0 & E & _). exists s0. exact E.
   - intros s k cnt out e HD Ha.
-    apply (advance_err_sub (nosp_raw r) (nosp_rule rl) fr (normalize_nosp r rl Hn) (sfam_s_nosp r fr HF) Hfr
+    rewrite <- (advance_nosp rl s (filt_sub r k) cnt out) in Ha.
+    change (filt_sub r k) with (filt_sub (nosp_raw r) k) in Ha.
+    exact (advance_err_sub (nosp_raw r) (nosp_rule rl) fr (normalize_nosp r rl Hn) (sfam_s_nosp r fr HF) Hfr
              s k cnt out e HD Ha).
 Qed.
 
